@@ -17,6 +17,38 @@ LOOP-ALIAS     `x = y` (y defined outside the loop, array-valued) followed by
                `x op= ...` inside a loop: the in-place operator modifies y
                itself, every iteration starts from the accumulated value.
 
+GEN-REUSE      a generator expression (or map / filter / zip object) bound
+               to a local name and consumed at two program points one of
+               which can follow the other (statement CFG): the second
+               consumer only sees what the first one left.
+
+MEMO-STALE     a method that memoises its result in an attribute (stores
+               self.X, and returns from self.X under a test on it) while
+               (1) another method of the class modifies an attribute the
+               result is computed from without resetting self.X, or (2) the
+               result is computed from a PUBLIC attribute, which any client
+               may re-bind or modify in place behind the memo's back.
+
+GLOBAL-STATE   a function sets process-wide state (np.seterr,
+               np.set_printoptions, warnings filters outside
+               catch_warnings, locale, os.chdir, seeds of the global random
+               generators, sys.setrecursionlimit) and does not restore it in
+               a `finally`: whatever runs next in the process (the next
+               test, the next task) computes under the leaked setting.
+
+VISITED-KEY    a recursive local function guarded by a visited set kept in
+               the enclosing function (`if x in seen: return ...;
+               seen.add(x)`) whose result also depends on ANOTHER parameter,
+               called from a loop with a loop-dependent value for that
+               parameter while the set is created outside the loop: what
+               was computed for the first start point is served (as "already
+               seen") to the next one.
+
+GROUPBY-KEY    itertools.groupby(seq, key=K) groups CONSECUTIVE elements: `seq`
+               must have been sorted with the same key.  Unsorted, or sorted
+               on another key, a later run of the same key starts a second
+               group (and `d[k] = list(group)` then forgets the first).
+
 Expected instances on the shipped code: 0 besides the documented
 exceptions of ALLOW; the rules are exercised by mutants in every property
 that uses them.'''
@@ -25,6 +57,7 @@ import json
 import os
 
 from ..astutil import txt, call_name, receiver, dotted, walk_local, calls_in
+from ..cfg import CFG
 
 VERIF = os.path.dirname(os.path.dirname(os.path.dirname(
     os.path.abspath(__file__))))
@@ -96,6 +129,359 @@ def _written_attrs(meth):
     return out
 
 
+def _node_exprs(nod):
+    '''The expressions evaluated AT a CFG node (header only for compound
+    statements).'''
+    if nod.ast is None:
+        return []
+    if nod.kind == 'iter':
+        return [nod.ast.iter]
+    if nod.kind == 'with':
+        return [i.context_expr for i in nod.ast.items]
+    if nod.kind in ('dispatch', 'handler', 'join', 'entry', 'exit'):
+        return []
+    if isinstance(nod.ast, (ast.FunctionDef, ast.AsyncFunctionDef,
+                            ast.ClassDef)):
+        return []
+    return [nod.ast]
+
+
+def gen_reuse(func):
+    '''[(name, def stmt, first consumer node, second consumer node)] for
+    one-shot iterators bound to a local and consumed twice along a path.'''
+    stores = {}
+    for node in walk_local(func.node):
+        if isinstance(node, ast.Assign):
+            for tgt in node.targets:
+                if isinstance(tgt, ast.Name):
+                    stores.setdefault(tgt.id, []).append(node)
+        elif isinstance(node, (ast.AugAssign, ast.AnnAssign, ast.For,
+                               ast.NamedExpr)):
+            tgt = node.target
+            for sub in ast.walk(tgt):
+                if isinstance(sub, ast.Name):
+                    stores.setdefault(sub.id, []).append(None)
+    cands = {}
+    for name, defs in stores.items():
+        if len(defs) != 1 or defs[0] is None:
+            continue
+        val = defs[0].value
+        if isinstance(val, ast.GeneratorExp) or (
+                isinstance(val, ast.Call) and isinstance(
+                    val.func, ast.Name) and val.func.id in (
+                        'map', 'filter', 'zip', 'iter', 'reversed')):
+            cands[name] = defs[0]
+    if not cands:
+        return []
+    cfg = CFG(func.node, may_raise=lambda n: False)
+    out = []
+    for name, dfn in cands.items():
+        users = []
+        for nod in cfg.nodes:
+            if nod.ast is dfn:
+                continue
+            n_loads = sum(1 for expr in _node_exprs(nod)
+                          for sub in ast.walk(expr)
+                          if isinstance(sub, ast.Name) and sub.id == name and
+                          isinstance(sub.ctx, ast.Load))
+            # `next(it)` / `it is None` style accesses do not drain it
+            partial = any(
+                isinstance(sub, ast.Call) and call_name(sub) == 'next'
+                for expr in _node_exprs(nod) for sub in ast.walk(expr))
+            if n_loads and not partial:
+                users.append((nod, n_loads))
+        done = False
+        for nod, n_loads in users:
+            if n_loads > 1:
+                out.append((name, dfn, nod, nod))
+                done = True
+                break
+        if done:
+            continue
+        for nod, _ in users:
+            # what follows this consumer without going through the definition
+            seen, todo = set(), [nod]
+            while todo:
+                cur = todo.pop()
+                for nxt, _lab in cur.succ:
+                    if nxt.ast is dfn or nxt.id in seen:
+                        continue
+                    seen.add(nxt.id)
+                    todo.append(nxt)
+            later = [oth for oth, _ in users if oth.id in seen]
+            if later:
+                out.append((name, dfn, nod, later[0]))
+                break
+    return out
+
+
+GLOBAL_SETTERS = {
+    'seterr': 'numpy error state', 'seterrcall': 'numpy error callback',
+    'set_printoptions': 'numpy print options',
+    'simplefilter': 'warnings filters', 'filterwarnings': 'warnings filters',
+    'setlocale': 'locale', 'chdir': 'working directory',
+    'setrecursionlimit': 'recursion limit',
+    'seed': 'seed of a global random generator',
+}
+
+
+def global_state_leaks(func):
+    '''[(call, what)] process-wide setters of the function that are not
+    undone by a `finally` clause / not inside a restoring context manager.'''
+    out = []
+    parents = {}
+    for par in ast.walk(func.node):
+        for child in ast.iter_child_nodes(par):
+            parents[id(child)] = par
+    for call in calls_in(func.node):
+        cname = call_name(call)
+        if cname not in GLOBAL_SETTERS or receiver(call) is None:
+            continue
+        if not call.args and call.keywords and all(
+                k.arg is None for k in call.keywords):
+            continue        # np.seterr(**old): the restoring call itself
+        recv = dotted(receiver(call)) or ''
+        if cname == 'seed' and recv.split('.')[-1] not in ('random', 'np',
+                                                           'numpy'):
+            continue
+        if cname == 'chdir' and recv != 'os':
+            continue
+        if cname in ('seterr', 'seterrcall', 'set_printoptions') and \
+                recv not in ('np', 'numpy'):
+            continue
+        if cname in ('simplefilter', 'filterwarnings') and recv != 'warnings':
+            continue
+        restored = False
+        cur = call
+        while cur is not None and cur is not func.node:
+            par = parents.get(id(cur))
+            if isinstance(par, ast.With) and any(
+                    call_name(i.context_expr) in (
+                        'catch_warnings', 'errstate', 'printoptions')
+                    for i in par.items if isinstance(i.context_expr,
+                                                     ast.Call)):
+                restored = True
+            if isinstance(par, ast.Try) and par.finalbody and any(
+                    isinstance(n, ast.Call) and call_name(n) == cname
+                    for stmt in par.finalbody for n in ast.walk(stmt)):
+                restored = True
+            cur = par
+        # `old = np.seterr(...)` directly followed by try/finally restoring
+        stmt = call
+        while stmt is not None and not isinstance(stmt, ast.stmt):
+            stmt = parents.get(id(stmt))
+        holder = parents.get(id(stmt)) if stmt is not None else None
+        for field in ('body', 'orelse', 'finalbody'):
+            block = getattr(holder, field, None)
+            if isinstance(block, list) and stmt in block:
+                nxt = block[block.index(stmt) + 1:block.index(stmt) + 2]
+                if nxt and isinstance(nxt[0], ast.Try) and any(
+                        isinstance(n, ast.Call) and call_name(n) == cname
+                        for s_ in nxt[0].finalbody for n in ast.walk(s_)):
+                    restored = True
+        if not restored:
+            out.append((call, GLOBAL_SETTERS[cname]))
+    return out
+
+
+def visited_key_sites(func):
+    '''[(nested function, set name, dropped parameter, loop, call)].'''
+    out = []
+    outer = func.node
+    for fdef in ast.walk(outer):
+        if not isinstance(fdef, ast.FunctionDef) or fdef is outer:
+            continue
+        params = [a.arg for a in fdef.args.args]
+        local = {n.id for n in ast.walk(fdef) if isinstance(n, ast.Name)
+                 and isinstance(n.ctx, ast.Store)} | set(params)
+        rec_calls = [c for c in ast.walk(fdef) if isinstance(c, ast.Call)
+                     and isinstance(c.func, ast.Name) and
+                     c.func.id == fdef.name]
+        if not rec_calls:
+            continue
+        for test in ast.walk(fdef):
+            if not (isinstance(test, ast.If) and isinstance(
+                    test.test, ast.Compare) and len(test.test.ops) == 1 and
+                    isinstance(test.test.ops[0], ast.In) and isinstance(
+                        test.test.comparators[0], ast.Name) and any(
+                            isinstance(s, ast.Return) for s in test.body)):
+                continue
+            sname = test.test.comparators[0].id
+            if sname in local:
+                continue
+            filled = any(isinstance(c, ast.Call) and call_name(c) in (
+                'add', 'append', 'update') and isinstance(
+                    receiver(c), ast.Name) and receiver(c).id == sname
+                         for c in ast.walk(fdef))
+            if not filled:
+                continue
+            key_names = {n.id for n in ast.walk(test.test.left)
+                         if isinstance(n, ast.Name)}
+            # parameters the result depends on, besides the key
+            dropped = []
+            for idx, par in enumerate(params):
+                if par in key_names:
+                    continue
+                passthrough = {id(c.args[idx]) for c in rec_calls
+                               if idx < len(c.args) and isinstance(
+                                   c.args[idx], ast.Name) and
+                               c.args[idx].id == par}
+                used = [n for n in ast.walk(fdef) if isinstance(n, ast.Name)
+                        and n.id == par and isinstance(n.ctx, ast.Load) and
+                        id(n) not in passthrough]
+                # uses in logging calls do not count
+                if used:
+                    dropped.append((idx, par))
+            if not dropped:
+                continue
+            # where is the set created, where is the function called?
+            parents = {}
+            for par_ in ast.walk(outer):
+                for child in ast.iter_child_nodes(par_):
+                    parents[id(child)] = par_
+            for call in ast.walk(outer):
+                if not (isinstance(call, ast.Call) and isinstance(
+                        call.func, ast.Name) and call.func.id == fdef.name)\
+                        or call in rec_calls:
+                    continue
+                cur, loops = call, []
+                while cur is not None and cur is not outer:
+                    cur = parents.get(id(cur))
+                    if isinstance(cur, (ast.For, ast.While)):
+                        loops.append(cur)
+                for loop in loops:
+                    bound = {n.id for n in ast.walk(loop)
+                             if isinstance(n, ast.Name) and
+                             isinstance(n.ctx, ast.Store)}
+                    if sname in bound:
+                        continue        # the set is renewed inside the loop
+                    for idx, par in dropped:
+                        if idx < len(call.args) and any(
+                                isinstance(n, ast.Name) and n.id in bound
+                                for n in ast.walk(call.args[idx])):
+                            out.append((fdef, sname, par, loop, call))
+    return out
+
+
+def _one_shot_value(program, func, expr, depth=0):
+    if isinstance(expr, ast.GeneratorExp):
+        return True
+    if isinstance(expr, ast.Call) and isinstance(expr.func, ast.Name) and \
+            expr.func.id in ONE_SHOT:
+        return True
+    if isinstance(expr, ast.Call) and depth < 2:
+        cands, how = program.resolve_call(func, expr)
+        if len(cands) == 1 and how != 'ctor':
+            rets = [n for n in walk_local(cands[0].node)
+                    if isinstance(n, ast.Return) and n.value is not None]
+            return bool(rets) and all(_one_shot_value(
+                program, cands[0], r.value, depth + 1) for r in rets)
+    return False
+
+
+def _stored_param(program, init, pname, depth=0):
+    '''Attribute in which the constructor keeps its parameter as it is.'''
+    for node in walk_local(init.node):
+        if isinstance(node, ast.Assign) and isinstance(
+                node.value, ast.Name) and node.value.id == pname:
+            for tgt in node.targets:
+                if _self_attr(tgt):
+                    return _self_attr(tgt)
+        if isinstance(node, ast.Call) and call_name(node) == '__init__' \
+                and depth < 2:
+            cands, _how = program.resolve_call(init, node)
+            for cand in cands[:1]:
+                cparams = [p_ for p_ in cand.params if p_ != 'self']
+                for idx, arg in enumerate(node.args):
+                    if isinstance(arg, ast.Name) and arg.id == pname and \
+                            idx < len(cparams):
+                        got = _stored_param(program, cand, cparams[idx],
+                                            depth + 1)
+                        if got:
+                            return got
+                for kwd in node.keywords:
+                    if kwd.arg and isinstance(kwd.value, ast.Name) and \
+                            kwd.value.id == pname:
+                        got = _stored_param(program, cand, kwd.arg,
+                                            depth + 1)
+                        if got:
+                            return got
+    return None
+
+
+def _self_attr(node):
+    return node.attr if isinstance(node, ast.Attribute) and isinstance(
+        node.value, ast.Name) and node.value.id == 'self' else None
+
+
+def memo_methods(klass):
+    '''[(method, memo attribute, {input attribute: load node})].'''
+    out = []
+    for meth in klass.methods.values():
+        if meth.name in ('__init__', '__setstate__', '__new__'):
+            continue
+        stores, loads = {}, {}
+        for node in walk_local(meth.node):
+            attr = _self_attr(node)
+            if attr is None:
+                continue
+            if isinstance(node.ctx, ast.Store):
+                stores.setdefault(attr, node)
+            elif isinstance(node.ctx, ast.Load):
+                loads.setdefault(attr, node)
+        returns = [n for n in walk_local(meth.node)
+                   if isinstance(n, ast.Return) and n.value is not None]
+        if not returns:
+            continue
+        for attr in stores:
+            if attr not in loads:
+                continue
+            # names that hold (a part of) the memo
+            holders = {attr}
+            for node in walk_local(meth.node):
+                if isinstance(node, ast.Assign) and any(
+                        _self_attr(s) == attr for s in ast.walk(node.value)):
+                    for tgt in node.targets:
+                        holders |= {n.id for n in ast.walk(tgt)
+                                    if isinstance(n, ast.Name)}
+
+            def mentions(expr):
+                return any(_self_attr(s) == attr or (isinstance(
+                    s, ast.Name) and s.id in holders)
+                           for s in ast.walk(expr))
+            guarded = any(isinstance(n, (ast.If, ast.IfExp)) and
+                          mentions(n.test) for n in walk_local(meth.node))
+            served = any(mentions(r.value) for r in returns)
+            # a plain accumulator (self.n = self.n + 1) is not a memo: the
+            # stored value must not be computed from the attribute itself
+            accum = any(isinstance(n, ast.AugAssign) and
+                        _self_attr(n.target) == attr
+                        for n in walk_local(meth.node)) or any(
+                isinstance(n, ast.Assign) and any(
+                    _self_attr(t) == attr for t in n.targets) and any(
+                        _self_attr(s) == attr for s in ast.walk(n.value))
+                for n in walk_local(meth.node))
+            if guarded and served and not accum:
+                inputs = {}
+                todo, seen = [meth], {meth.name}
+                while todo:
+                    cur = todo.pop()
+                    for node in ast.walk(cur.node):
+                        sattr = _self_attr(node)
+                        if sattr is None or sattr == attr:
+                            continue
+                        if sattr in klass.methods:
+                            if sattr not in seen:
+                                seen.add(sattr)
+                                todo.append(klass.methods[sattr])
+                        elif isinstance(node.ctx, ast.Load):
+                            inputs.setdefault(
+                                sattr, node if cur is meth else
+                                loads.get(attr))
+                out.append((meth, attr, inputs))
+    return out
+
+
 def check_patterns(ctx, prop_id, extra_modules=()):
     program = ctx.program
     mods = anchor_modules(program, prop_id) + [
@@ -147,6 +533,45 @@ def check_patterns(ctx, prop_id, extra_modules=()):
                                'one container for every instance: what one '
                                'object stored is seen by all the others',
                                f'{mod.name}:{klass.name}.{attr}')
+        # ---- MEMO-STALE
+        for klass in mod.classes.values():
+            for meth, attr, inputs in memo_methods(klass):
+                for inp in sorted(inputs):
+                    if not inp.startswith('_') and inp not in klass.methods:
+                        report('MEMO-STALE', meth,
+                               f'{klass.name}.{meth.name} memoises in '
+                               f'self.{attr} a result computed from the '
+                               f'public attribute self.{inp}',
+                               inputs[inp],
+                               f'a client that re-binds or modifies '
+                               f'{inp} in place leaves the memo behind: '
+                               f'the next result is computed from the old '
+                               f'value',
+                               f'{mod.name}:{klass.name}.{attr}')
+                for other in klass.methods.values():
+                    if other is meth or other.name in (
+                            '__init__', '__setstate__', '__new__'):
+                        continue
+                    touched = _written_attrs(other)
+                    for node in walk_local(other.node):
+                        if isinstance(node, ast.Assign):
+                            for tgt in node.targets:
+                                if _self_attr(tgt):
+                                    touched.setdefault(_self_attr(tgt), node)
+                    hit = sorted(set(touched) & set(inputs))
+                    resets = any(
+                        isinstance(stmt, ast.Assign) and any(
+                            _self_attr(t) == attr for t in stmt.targets)
+                        for stmt in other.node.body)
+                    if hit and not resets:
+                        report('MEMO-STALE', other,
+                               f'{klass.name}.{other.name} modifies '
+                               f'self.{hit[0]} but does not reset the memo '
+                               f'self.{attr} of {meth.name}',
+                               touched[hit[0]],
+                               f'{meth.name} keeps serving the result '
+                               f'computed before the modification',
+                               f'{mod.name}:{klass.name}.{attr}')
         # ---- function-level patterns
         for func in mod.functions.values():
             n_fun += 1
@@ -164,6 +589,94 @@ def check_patterns(ctx, prop_id, extra_modules=()):
                                f'{func.name}: {txt(node)[:60]}', node,
                                'a one-shot iterator kept on the object: the '
                                'first reader exhausts it')
+            # GROUPBY-KEY
+            fdefs = {}
+            for node in walk_local(func.node):
+                if isinstance(node, ast.Assign) and len(
+                        node.targets) == 1 and isinstance(
+                            node.targets[0], ast.Name):
+                    fdefs.setdefault(node.targets[0].id, []).append(
+                        node.value)
+            for call in calls_in(func.node):
+                if call_name(call) != 'groupby' or not call.args:
+                    continue
+                if receiver(call) is not None and dotted(
+                        receiver(call)) != 'itertools':
+                    continue        # DataFrame.groupby and the like
+                gkey = next((k.value for k in call.keywords
+                             if k.arg == 'key'),
+                            call.args[1] if len(call.args) > 1 else None)
+                seq = call.args[0]
+                if isinstance(seq, ast.Name) and len(
+                        fdefs.get(seq.id, [])) == 1:
+                    seq = fdefs[seq.id][0]
+                skey, is_sorted = None, False
+                if isinstance(seq, ast.Call) and isinstance(
+                        seq.func, ast.Name) and seq.func.id == 'sorted':
+                    is_sorted = True
+                    skey = next((k.value for k in seq.keywords
+                                 if k.arg == 'key'), None)
+                same = is_sorted and (
+                    (gkey is None and skey is None) or
+                    (gkey is not None and skey is not None and
+                     ast.dump(gkey) == ast.dump(skey)))
+                if not same:
+                    report('GROUPBY-KEY', func,
+                           f'{func.name}: {txt(call)[:60]} on a sequence '
+                           + ('sorted on another key' if is_sorted else
+                              'that is not sorted on that key'), call,
+                           'groupby only merges consecutive elements: a key '
+                           'that comes back later starts a new group')
+            # ITER-FIELD through a constructor argument
+            for call in calls_in(func.node):
+                cands, how = program.resolve_call(func, call)
+                if how != 'ctor' or len(cands) != 1:
+                    continue
+                init = cands[0]
+                params = [p_ for p_ in init.params if p_ != 'self']
+                bound = list(zip(params, call.args)) + [
+                    (k.arg, k.value) for k in call.keywords if k.arg]
+                for pname, actual in bound:
+                    if not _one_shot_value(program, func, actual):
+                        continue
+                    kept = _stored_param(program, init, pname)
+                    if kept is None:
+                        continue
+                    report('ITER-FIELD', func,
+                           f'{func.name}: {txt(actual)[:40]} (a one-shot '
+                           f'iterator) is handed to {txt(call.func)}, which '
+                           f'keeps it in self.{kept}', call,
+                           'the first walk over the attribute exhausts it: '
+                           'a second evaluation, the fingerprint, a '
+                           'pickled copy see an empty sequence')
+            # VISITED-KEY
+            for fdef, sname, par, loop, call in visited_key_sites(func)[:1]:
+                report('VISITED-KEY', func,
+                       f'{func.name}: {fdef.name}() skips what is in '
+                       f'`{sname}`, but its result also depends on '
+                       f'`{par}`, which changes at every turn of the loop '
+                       f'at line {loop.lineno} while `{sname}` is kept',
+                       call,
+                       f'nodes expanded for one start point are reported '
+                       f'as already seen (empty result) for the next')
+            # GLOBAL-STATE
+            for call, what in global_state_leaks(func):
+                report('GLOBAL-STATE', func,
+                       f'{func.name}: {txt(call)[:50]} sets the {what} of '
+                       f'the process and no `finally` restores it', call,
+                       'every later computation of the process (0/0 -> nan '
+                       'conventions of the statistical tests, warnings, '
+                       'formatting) runs under the leaked setting')
+            # GEN-REUSE
+            for name, dfn, first, second in gen_reuse(func):
+                report('GEN-REUSE', func,
+                       f'{func.name}: `{txt(dfn)[:50]}` consumed by '
+                       f'`{first.text(40)}` (line {first.lineno}) and then '
+                       f'by `{second.text(40)}` (line {second.lineno})',
+                       second.ast if second.ast is not None else dfn,
+                       'a one-shot iterator: the second consumer only sees '
+                       'what the first one left (all() / any() stop at the '
+                       'first deciding element)')
             # MUTABLE-DEFAULT
             args = func.node.args
             pos = args.posonlyargs + args.args
@@ -266,4 +779,4 @@ def check_patterns(ctx, prop_id, extra_modules=()):
         ctx.holds('PATTERNS', prop_id,
                   f'{n_cls} classes / {n_fun} functions of the anchored '
                   f'files: none of CLASS-STATE, ITER-FIELD, MUTABLE-DEFAULT, '
-                  f'ZIP-SET, LOOP-ALIAS', nontrivial=False)
+                  f'ZIP-SET, LOOP-ALIAS, GEN-REUSE, MEMO-STALE, GLOBAL-STATE, VISITED-KEY, GROUPBY-KEY', nontrivial=False)
